@@ -136,15 +136,15 @@ func produceOrderByItems(ctx ProduceContext, recordCounts *btree.BTree, limit *i
 	i := int64(0)
 	var outErr error
 	recordCounts.Ascend(func(item btree.Item) bool {
-		if limit != nil && i >= *limit {
-			return false
-		}
-		i++
 		itemTyped, ok := item.(*orderByItem)
 		if !ok {
 			panic(fmt.Sprintf("invalid order by item: %v", item))
 		}
-		for i := 0; i < itemTyped.Count; i++ {
+		for j := 0; j < itemTyped.Count; j++ {
+			if limit != nil && i >= *limit {
+				return false
+			}
+			i++
 			if err := produce(ctx, NewRecord(itemTyped.Values, false, time.Time{})); err != nil {
 				outErr = err
 				return false
